@@ -18,7 +18,8 @@ def Sheet.events : Sheet → List Ev
   | .rule sel body close next => sel :: (body.events ++ close :: next.events)
   | .decl name value next => name :: value :: next.events
 
-/-- the spec: first item in post-order whose span (as the pinned code draws it) strictly contains `pos` -/
+/-- the spec: first item in post-order whose span strictly contains `pos`; a rule spans `[selector start, '}' + 1)`, a
+    declaration `[name start, delimiter + 1)` (`propEnd`: up to its value end when it has no delimiter) -/
 def Sheet.findPost (pos : Int) : Sheet → Option MatchResult
   | .nil => none
   | .rule sel body close next =>
@@ -26,7 +27,7 @@ def Sheet.findPost (pos : Int) : Sheet → Option MatchResult
       if sel.start < pos && pos < close.stop then some ⟨"selector", sel.start, close.stop, sel.delimiter + 1, close.start⟩
       else next.findPost pos
   | .decl name value next =>
-    if name.start < pos && pos < value.stop then some ⟨"property", name.start, value.delimiter + 1, value.start, value.stop⟩
+    if name.start < pos && pos < propEnd value then some ⟨"property", name.start, propEnd value, value.start, value.stop⟩
     else next.findPost pos
 
 def RestOK (rest : List Ev) : Prop := rest = [] ∨ ∃ ev evs, rest = ev :: evs ∧ ev.type = .blockEnd
@@ -78,15 +79,10 @@ theorem C10_match (pos : Int) (sh : Sheet) (h : sh.WF) : matchLoop pos sh.events
   cases sh.findPost pos <;> rfl
 
 /-! ### balanced_outward -/
-def ruleRanges (src : Array Ch) (pos : Int) (sel close : Ev) (acc : List (Int × Int)) : List (Int × Int) :=
-  if sel.start < pos && pos < close.stop then
-    let a1 := match innerRange src (sel.delimiter + 1) close.start with | some i => pushR acc i | none => acc
-    pushR a1 (sel.start, close.stop)
-  else acc
-def declRanges (pos : Int) (name value : Ev) (acc : List (Int × Int)) : List (Int × Int) :=
-  if name.start < pos && pos < max value.delimiter value.stop then
-    pushR (pushR acc (value.start, value.stop)) (name.start, if value.delimiter != -1 then value.delimiter + 1 else value.stop)
-  else acc
+theorem ruleRanges_evOf (src : Array Ch) (pos : Int) (sel close : Ev) (acc) :
+    ruleRanges src pos (evOf (sel.start, sel.stop, sel.delimiter)) close acc = ruleRanges src pos sel close acc := rfl
+theorem declRanges_evOf (pos : Int) (name value : Ev) (acc) :
+    declRanges pos (evOf (name.start, name.stop, name.delimiter)) value acc = declRanges pos name value acc := rfl
 
 /-- the spec: every enclosing item, innermost first (post-order), contributes its body/value range and then its
     full range; `pushR` drops empty ranges and immediate repetitions -/
@@ -129,86 +125,141 @@ theorem outwardLoop_events (src : Array Ch) (pos : Int) (sh : Sheet) : ∀ (rest
     simp only [hv]
     exact ihn rest stack none _ hn hr hst
 
-/-- top-level declarations before the first rule (stack empty) -/
-def Sheet.declsOnly : Sheet → Prop
+/-! ### top level: the scan stops once the outermost section containing the position has been closed
+
+The loop returns as soon as a top-level rule closes with a non-empty result. That is sound for a sheet whose items are
+laid out in document order (`Seq`): every item of a rule's body ends before the rule's end (`Before`), and everything
+that follows an item starts at or after its end (`After`). -/
+
+/-- every item (at any depth) starts at or after `b` -/
+def Sheet.After (b : Int) : Sheet → Prop
   | .nil => True
-  | .rule _ _ _ _ => False
-  | .decl _ _ next => next.declsOnly
+  | .rule sel body _ next => b ≤ sel.start ∧ body.After b ∧ next.After b
+  | .decl name _ next => b ≤ name.start ∧ next.After b
 
-/-- **C10_outward_partial (pinned code)**: for a sheet whose first top-level item is a rule, the result is the
-    ranges of that rule's subtree — and nothing from `next`, whatever `pos` is (defect #14). -/
-theorem C10_outward_first_rule (src : Array Ch) (pos : Int) (sel close : Ev) (body next : Sheet)
-    (h : (Sheet.rule sel body close next).WF) :
-    outwardLoop src pos (Sheet.rule sel body close next).events [] none []
-      = (ruleRanges src pos sel close (body.allPost src pos [])).reverse := by
-  obtain ⟨hs, hc, hb, hn⟩ := h
-  simp only [Sheet.events]
-  conv => lhs; unfold outwardLoop
-  simp only [hs]
-  rw [outwardLoop_events src pos body (close :: next.events) _ none [] hb (Or.inr ⟨close, _, rfl, hc⟩) (by simp)]
-  conv => lhs; unfold outwardLoop
-  simp only [hc, List.isEmpty_nil, if_true]
-  rfl
+/-- every item (at any depth) ends at or before `b` -/
+def Sheet.Before (b : Int) : Sheet → Prop
+  | .nil => True
+  | .rule _ body close next => close.stop ≤ b ∧ body.Before b ∧ next.Before b
+  | .decl _ value next => propEnd value ≤ b ∧ next.Before b
 
-/-- repaired loop: closing a top-level rule does not end the scan -/
-def outwardLoopF (src : Array Ch) (pos : Int) : List Ev → List Rng → Option Rng → List (Int × Int) → List (Int × Int)
-  | [], _, _, acc => acc.reverse
-  | ev :: evs, stack, prop, acc =>
-    match ev.type with
-    | .selector => outwardLoopF src pos evs ((ev.start, ev.stop, ev.delimiter) :: stack) none acc
-    | .blockEnd =>
-      match stack with
-      | left :: rest =>
-        outwardLoopF src pos evs rest none (if left.1 < pos && pos < ev.stop then
-            let a1 := match innerRange src (left.2.2 + 1) ev.start with | some i => pushR acc i | none => acc
-            pushR a1 (left.1, ev.stop)
-          else acc)
-      | [] => outwardLoopF src pos evs [] none acc
-    | .propertyName => outwardLoopF src pos evs stack (some (ev.start, ev.stop, ev.delimiter)) acc
-    | .propertyValue =>
-      outwardLoopF src pos evs stack none (match prop with
-        | some p =>
-          if p.1 < pos && pos < max ev.delimiter ev.stop then
-            pushR (pushR acc (ev.start, ev.stop)) (p.1, if ev.delimiter != -1 then ev.delimiter + 1 else ev.stop)
-          else acc
-        | none => acc)
+/-- top-level items in document order -/
+def Sheet.Seq : Sheet → Prop
+  | .nil => True
+  | .rule _ body close next => body.Before close.stop ∧ next.After close.stop ∧ next.Seq
+  | .decl _ value next => next.After (propEnd value) ∧ next.Seq
 
-theorem outwardLoopF_pending (src : Array Ch) (pos : Int) (rest : List Ev) (stack : List Rng) (p : Option Rng) (acc) (h : RestOK rest) :
-    outwardLoopF src pos rest stack p acc = outwardLoopF src pos rest stack none acc := by
-  rcases h with rfl | ⟨ev, evs, rfl, hev⟩
-  · simp [outwardLoopF]
-  · simp only [outwardLoopF, hev]
-
-theorem outwardLoopF_events (src : Array Ch) (pos : Int) (sh : Sheet) : ∀ (rest : List Ev) (stack : List Rng) (p : Option Rng) (acc),
-    sh.WF → RestOK rest →
-    outwardLoopF src pos (sh.events ++ rest) stack p acc = outwardLoopF src pos rest stack none (sh.allPost src pos acc) := by
+theorem allPost_after (src : Array Ch) (pos b : Int) (hb : pos ≤ b) (sh : Sheet) : ∀ acc, sh.After b → sh.allPost src pos acc = acc := by
   induction sh with
-  | nil => intro rest stack p acc _ hr; simp only [Sheet.events, Sheet.allPost, List.nil_append]; exact outwardLoopF_pending src pos rest stack p acc hr
+  | nil => intro acc _; rfl
   | rule sel body close next ihb ihn =>
-    intro rest stack p acc hwf hr
-    obtain ⟨hs, hc, hb, hn⟩ := hwf
-    simp only [Sheet.events, Sheet.allPost, List.cons_append, List.append_assoc]
-    conv => lhs; unfold outwardLoopF
-    simp only [hs]
-    rw [ihb (close :: (next.events ++ rest)) _ none acc hb (Or.inr ⟨close, _, rfl, hc⟩)]
-    conv => lhs; unfold outwardLoopF
-    simp only [hc]
-    exact ihn rest stack none _ hn hr
+    intro acc ⟨h1, h2, h3⟩
+    have : ¬ (sel.start < pos) := by omega
+    simp only [Sheet.allPost, ihb acc h2, ruleRanges, this, decide_false, Bool.false_and, Bool.false_eq_true, if_false]
+    exact ihn acc h3
   | decl name value next ihn =>
-    intro rest stack p acc hwf hr
-    obtain ⟨hnm, hv, hn⟩ := hwf
-    simp only [Sheet.events, Sheet.allPost, List.cons_append]
-    conv => lhs; unfold outwardLoopF
-    simp only [hnm]
-    conv => lhs; unfold outwardLoopF
-    simp only [hv]
-    exact ihn rest stack none _ hn hr
+    intro acc ⟨h1, h3⟩
+    have : ¬ (name.start < pos) := by omega
+    simp only [Sheet.allPost, declRanges, this, decide_false, Bool.false_and, Bool.false_eq_true, if_false]
+    exact ihn acc h3
 
-/-- **C10_outward (layer B, repaired loop)**: for every sheet and every position in the file -/
-theorem C10_outward (src : Array Ch) (pos : Int) (sh : Sheet) (h : sh.WF) :
-    outwardLoopF src pos sh.events [] none [] = (sh.allPost src pos []).reverse := by
-  have := outwardLoopF_events src pos sh [] [] none [] h (Or.inl rfl)
-  simp only [List.append_nil] at this
-  rw [this]; simp [outwardLoopF]
+theorem allPost_before (src : Array Ch) (pos b : Int) (sh : Sheet) : ∀ acc, sh.Before b → (acc ≠ [] → pos < b) →
+    sh.allPost src pos acc ≠ [] → pos < b := by
+  induction sh with
+  | nil => intro acc _ h hne; exact h hne
+  | rule sel body close next ihb ihn =>
+    intro acc ⟨h1, h2, h3⟩ h hne
+    simp only [Sheet.allPost] at hne
+    refine ihn _ h3 ?_ hne
+    intro hr
+    unfold ruleRanges at hr
+    split at hr
+    · rename_i hc
+      simp only [Bool.and_eq_true, decide_eq_true_eq] at hc
+      omega
+    · exact ihb acc h2 h hr
+  | decl name value next ihn =>
+    intro acc ⟨h1, h3⟩ h hne
+    simp only [Sheet.allPost] at hne
+    refine ihn _ h3 ?_ hne
+    intro hr
+    unfold declRanges at hr
+    split at hr
+    · rename_i hc
+      simp only [Bool.and_eq_true, decide_eq_true_eq] at hc
+      omega
+    · exact h hr
+
+theorem outwardLoop_top (src : Array Ch) (pos : Int) (sh : Sheet) : ∀ (p : Option Rng) (acc),
+    sh.WF → sh.Seq → (acc ≠ [] → ∃ b, pos ≤ b ∧ sh.After b) →
+    outwardLoop src pos sh.events [] p acc = (sh.allPost src pos acc).reverse := by
+  induction sh with
+  | nil => intro p acc _ _ _; simp [Sheet.events, Sheet.allPost, outwardLoop]
+  | rule sel body close next ihb ihn =>
+    intro p acc hwf hseq hacc
+    obtain ⟨hs, hc, hb, hn⟩ := hwf
+    obtain ⟨hbef, haft, hseqn⟩ := hseq
+    simp only [Sheet.events, Sheet.allPost]
+    conv => lhs; unfold outwardLoop
+    simp only [hs]
+    rw [outwardLoop_events src pos body (close :: next.events) _ none acc hb (Or.inr ⟨close, _, rfl, hc⟩) (by simp)]
+    conv => lhs; unfold outwardLoop
+    simp only [hc, List.isEmpty_nil, Bool.true_and]
+    rw [ruleRanges_evOf]
+    by_cases hne : ruleRanges src pos sel close (body.allPost src pos acc) = []
+    · simp only [hne, List.isEmpty_nil, Bool.not_true, Bool.false_eq_true, if_false]
+      exact ihn none [] hn hseqn (fun h => absurd rfl h)
+    · have hiE : (ruleRanges src pos sel close (body.allPost src pos acc)).isEmpty = false := by
+        cases hx : ruleRanges src pos sel close (body.allPost src pos acc) with
+        | nil => exact absurd hx hne
+        | cons _ _ => rfl
+      simp only [hiE, Bool.not_false, if_true]
+      -- nothing after the rule can contain the position
+      have hq : next.allPost src pos (ruleRanges src pos sel close (body.allPost src pos acc))
+          = ruleRanges src pos sel close (body.allPost src pos acc) := by
+        by_cases ha : acc = []
+        · subst ha
+          have hlt : pos < close.stop := by
+            apply Decidable.byContradiction
+            intro hge
+            have hcond : ¬ ((decide (sel.start < pos) && decide (pos < close.stop)) = true) := by
+              simp only [Bool.and_eq_true, decide_eq_true_eq]; omega
+            have hb0 : body.allPost src pos [] ≠ [] := by
+              intro h0; apply hne; unfold ruleRanges; simp only [hcond, if_false]; exact h0
+            exact hge (allPost_before src pos close.stop body [] hbef (fun h => absurd rfl h) hb0)
+          exact allPost_after src pos close.stop (by omega) next _ haft
+        · obtain ⟨b, hpb, ⟨_, _, hnb⟩⟩ := hacc ha
+          exact allPost_after src pos b hpb next _ hnb
+      rw [hq]
+  | decl name value next ihn =>
+    intro p acc hwf hseq hacc
+    obtain ⟨hnm, hv, hn⟩ := hwf
+    obtain ⟨haft, hseqn⟩ := hseq
+    simp only [Sheet.events, Sheet.allPost]
+    conv => lhs; unfold outwardLoop
+    simp only [hnm]
+    conv => lhs; unfold outwardLoop
+    simp only [hv]
+    rw [declRanges_evOf]
+    apply ihn none _ hn hseqn
+    intro hne
+    by_cases ha : acc = []
+    · subst ha
+      refine ⟨propEnd value, ?_, haft⟩
+      apply Decidable.byContradiction
+      intro hge
+      apply hne
+      unfold declRanges
+      have : ¬ ((decide (name.start < pos) && decide (pos < propEnd value)) = true) := by
+        simp only [Bool.and_eq_true, decide_eq_true_eq]; omega
+      simp [this]
+    · obtain ⟨b, hpb, ⟨_, hnb⟩⟩ := hacc ha
+      exact ⟨b, hpb, hnb⟩
+
+/-- **C10_outward (layer B)**: for every sheet laid out in document order and every position in the file,
+    `balanced_outward` is the list of value / declaration / content / full ranges of all enclosing items, innermost first -/
+theorem C10_outward (src : Array Ch) (pos : Int) (sh : Sheet) (h : sh.WF) (hs : sh.Seq) :
+    outwardLoop src pos sh.events [] none [] = (sh.allPost src pos []).reverse :=
+  outwardLoop_top src pos sh none [] h hs (fun h => absurd rfl h)
 
 end C
